@@ -315,7 +315,7 @@ func c06Gen() *rapid.Generator[c06Case] {
 				}
 			}
 		}
-		c := c06Case{Forest: f, Entry: entry, Exts: genExts(f.Names()).Draw(t, "exts")}
+		c := c06Case{Forest: f, Entry: entry, Exts: genExts(extSources(f)).Draw(t, "exts")}
 		c.HasExts = rapid.Bool().Draw(t, "hasExts")
 		if entry == "root" && rapid.Bool().Draw(t, "withPreOps") {
 			c.PreOps = rapid.SliceOfN(rapid.SampledFrom(preOpPool), 1, 2).Draw(t, "preOps")
